@@ -122,29 +122,37 @@ def run(sc: Dict[str, Any]) -> Dict[str, Any]:
         except Exception as e:
             open_obs[c["name"]] = None
 
-    # ---- write the masks
-    for node, al in sc.get("alive", {}).items():
-        i = int(node)
-        try:
-            pitdrv.set_alive(pit, pitdrv.owner(arch, i), list(al), sh[i]["ch"])
-        except Exception:
-            pass
-    for node, vals in sc.get("alpha", {}).items():
-        try:
-            pitdrv.set_alpha(pit, pitdrv.owner(arch, int(node)), list(vals))
-        except Exception:
-            pass
+    # ---- the history: calls made before / after the masks are written (marker "set_masks"; default: first)
     tm_abs: Dict[int, Dict[str, List[int]]] = {}
-    for node, bg in sc.get("tm", {}).items():
-        i = int(node)
-        sgn = lambda: rng.choice([1.0, -1.0])
-        pitdrv.set_beta_gamma(pit, pitdrv.owner(arch, i), [ABS2F[v] * sgn() for v in bg["b"]], [ABS2F[v] * sgn() for v in bg["g"]])
-        tm_abs[i] = bg
-    for node, bg in sc.get("tmraw", {}).items():
-        pitdrv.set_beta_gamma(pit, pitdrv.owner(arch, int(node)), bg.get("beta"), bg.get("gamma"))
 
-    # ---- a history of calls that must not matter (the properties hold "whatever preceded")
-    for op in sc.get("pre", []):
+    def write_masks():
+        for node, al in sc.get("alive", {}).items():
+            i = int(node)
+            try:
+                pitdrv.set_alive(pit, pitdrv.owner(arch, i), list(al), sh[i]["ch"])
+            except Exception:
+                pass
+        for node, vals in sc.get("alpha", {}).items():
+            try:
+                pitdrv.set_alpha(pit, pitdrv.owner(arch, int(node)), list(vals))
+            except Exception:
+                pass
+        for node, bg in sc.get("tm", {}).items():
+            i = int(node)
+            sgn = lambda: rng.choice([1.0, -1.0])
+            pitdrv.set_beta_gamma(pit, pitdrv.owner(arch, i), [ABS2F[v] * sgn() for v in bg["b"]], [ABS2F[v] * sgn() for v in bg["g"]])
+            tm_abs[i] = bg
+        for node, bg in sc.get("tmraw", {}).items():
+            pitdrv.set_beta_gamma(pit, pitdrv.owner(arch, int(node)), bg.get("beta"), bg.get("gamma"))
+
+
+    pre = list(sc.get("pre", []))
+    if "set_masks" not in pre:
+        pre = ["set_masks"] + pre
+    for op in pre:
+        if op == "set_masks":
+            write_masks()
+            continue
         try:
             if op == "freeze_features":
                 pit.train_features = False
